@@ -333,3 +333,29 @@ PROPS["C14"] = dict(
     level_text="Coverage-guided fuzzing of every textual input of the formatters and filters, sanitizers and in-target semantic oracles; 300k executions quick, 10 min x 5 targets x 3 workers thorough plus an empty-corpus run. Absence of crashes on the explored inputs only.",
     level_note="Trusted: clang 14 sanitizer runtimes, libFuzzer, harness/fuzz_targets.cpp, minijson.h. The targets compile only formatters/*.cpp and filters/*.cpp (clang cannot compile the whole library, DESIGN.md 1.2).",
 )
+
+PROPS["C11"] = dict(
+    hyp="hyp_c11.py",
+    runners={"VERIF_RUNNER_FATAL": dict(kind="rc", harness="runner_fatal")},
+    builds=[dict(kind="rc", harness="runner_fatal")],
+    engine="hyp",
+    level="exploration",
+    quick=dict(cases=70, shards=4, max_size=100, timeout=1500),
+    thorough=dict(cases=150, shards=16, max_size=100, timeout=3400),
+    confirm_replays=0,
+    rule="case = scenario executed by a child process that must die by SIGABRT: configuration style (fluent format+sendToFile / fluent with sibling sub-pipelines and the "
+    "file sink in the last one / one-line configure(path,..,async=false) / INI file with async=false) x sink kind (plain FileSink, rotating by size L in {200,5000,20000,100000}, "
+    "daily, on-startup; compression on/off) x 0..300 preceding messages with sizes from {0..60, 100..3000, 4000, 4096, 16 KiB-41..16 KiB+1 (QFile's write buffer), 40000} logged by "
+    "the main thread and 0..3 worker threads (all calls returned before the fatal) x fatal raised from the main or a worker thread via qFatal / a category logger, fatal text size "
+    "{0,10,200,16 KiB+5} x contention at the instant of the fatal (0..2 threads logging in a tight loop; a thread parked inside the pipeline for 300 ms) x with/without QCoreApplication. "
+    "Non-trivial = at least one preceding message (so buffered, unflushed data exists when the fatal is raised unless the last message alone exceeded the buffer; class counters say how often); distinct = scenario fingerprint.",
+    assumptions=[
+        "retention is off (file-count limit 0) in every scenario: the property is about flushing, not about retention",
+        "messages of the contending threads are concurrent with the fatal and are not required to be present; they must only be whole lines",
+        "the child is run with ASAN handle_abort=0 so that abort() ends it by SIGABRT as in production",
+    ],
+    floors={"unflushed_tail_nonempty": 0.5, "rotating_sink": 0.3, "rotated_files_present": 0.1, "fatal_from_worker_thread": 0.2, "contention_at_fatal": 0.2},
+    technique="property-based testing (Hypothesis) with process-death injection: generated logging scenarios run in a child that aborts on the fatal message; files read back and compared with the expected record sequence",
+    level_text="Generated scenarios (280 quick / 2 400 thorough child processes) ending in a real abort(); the files left behind must hold every preceding message once, per thread in order, and the fatal message after them. Not a proof; the crash point is always the abort that follows the fatal message handler.",
+    level_note="Trusted: harness/runner_fatal.cpp (scenario executor), the line decoder in py/hyp_c11.py, Python's gzip.",
+)
